@@ -18,6 +18,18 @@ Theorem C03_partial_root_mirrored : forall site e s, 0 < length (tasks e) -> is_
 Proof. exact root_terminal_mirrored. Qed.
 Theorem C03_partial_only_root_mirrored : forall site e i s, i <> 0 -> pstate (set_state site e i s) = pstate e.
 Proof. exact other_writes_keep_pstate. Qed.
+(* the two repaired sites: reviewing a running workflow or branch that still has a task started directly beneath it open
+   (lifecycle-hook acts aside) changes nothing but the data handed up -- it is not completed over its open child
+   (Workflow::review / Branch::review after the repairs edcdff9 / 551c70a; `review` is the engine's review step, `from`
+   the child that finished) *)
+Theorem C03_partial_workflow_and_branch_wait_for_their_children :
+  forall f cv from e i,
+    t_evproc (tk e from) = false ->
+    let e' := update_data e i (outputs e from) in
+    (kind e' i = KWorkflow \/ kind e' i = KBranch) -> st e' i = SRunning ->
+    forallb (child_done e') (children e' i) = false ->
+    review (S f) cv from e i = e'.
+Proof. exact review_waits_for_children. Qed.
 Theorem C03_partial_nothing_acted_on_after_end :
   forall e i a opts, is_completed (pstate e) = true -> do_action e i a opts = ret_err e.
 Proof. exact ended_rejects. Qed.
@@ -25,4 +37,5 @@ Proof. exact ended_rejects. Qed.
 Print Assumptions C03_completion_refuted.
 Print Assumptions C03_partial_root_mirrored.
 Print Assumptions C03_partial_only_root_mirrored.
+Print Assumptions C03_partial_workflow_and_branch_wait_for_their_children.
 Print Assumptions C03_partial_nothing_acted_on_after_end.
